@@ -219,6 +219,12 @@ var templates = []tmpl{
 	{"65536 array 65536 string 65536 dict pop pop pop", []string{""}},
 	{"4294967296 array", []string{"limitcheck"}},
 	{"{65536 array} loop", []string{"stackoverflow"}},
+	// tokens of a procedure body that is never closed, or is very long, pile
+	// up on the operand stack while it is collected
+	{"{ " + strings.Repeat("0 ", 5000), []string{"stackoverflow"}},
+	{"{ " + strings.Repeat("{ 1 ", 3000), []string{"stackoverflow"}},
+	{"{ " + strings.Repeat("(s) /n 2.5 ", 2000) + "} pop", []string{"stackoverflow"}},
+	{"1 2 { " + strings.Repeat("dup ", 700) + "} exec", []string{"stackoverflow"}},
 }
 
 func deepExec(n int) string {
